@@ -16,7 +16,7 @@ EXPLANATION = (
     'starts from the stripped sequence -- "contains only numeric modifications"; (c) include_plus reaches the '
     'serializer and precision reaches every rounding; the caller\'s annotation is not edited (C08). '
     'Not decided: mass preservation within rounding for every annotation (float, needs the calculator as oracle); '
-    'intervals are clipped by slicing, not copied, and are outside this rule.')
+    'interval modifications are treated like the other whole-peptide content (R-STRIP condition ii).')
 
 FQ = 'peptacular.mass_calc:condense_to_mass_mods'
 
